@@ -66,6 +66,15 @@ func (x *Exec) modAddField(ms *ModSet, T types.Type, fi FieldInfo, obj *Term, sr
 	for _, l := range x.Sh.Leaves(fi.Type) {
 		ms.keys[compKeyField(ownerName(T), fi.Name, l.Suffix)] = ArrSort(SInt, l.Sort)
 	}
+	// a function that may lock or unlock a mutex (modifies m.held / m.rheld) may also advance its ghost
+	// acquisition counter m.acq: the counter is bookkeeping of the same lock operations
+	if x.autoAcq && fi.Ghost && (fi.Name == "$held" || fi.Name == "$rheld") {
+		for _, f2 := range x.Sh.Fields(T) {
+			if f2.Ghost && f2.Name == "$acq" {
+				x.modAddField(ms, T, f2, obj, src)
+			}
+		}
+	}
 }
 
 func (x *Exec) modAddElems(ms *ModSet, elem types.Type, arr, lo, hi *Term, src string) {
@@ -91,6 +100,10 @@ func (x *Exec) evalModSet(sp *FuncSpec, env *SpecEnv) *ModSet {
 		ms.Any = true
 		return ms
 	}
+	// library contracts list their ghost effects exactly; for repository functions `modifies m.held` stands for
+	// "may lock/unlock m", which includes advancing the acquisition counter
+	x.autoAcq = !sp.Extern
+	defer func() { x.autoAcq = false }()
 	for _, ml := range sp.Modifies {
 		switch ml.Kind {
 		case "field":
